@@ -37,7 +37,7 @@ BUDGET = {'quick': 115, 'thorough': 1500}
 TIMEOUT = 600
 WORKERS = 8           # dill snapshots thrash mmap and do not scale across processes here; more workers only add watchdog hits
 SHRINK_LISTS = [['cuts'], ['events']]
-EXPECTED_PROBES = ['resume', 'snapshot', 'snapshot_keep', 'snapshot_file', 'crash_restore', 'torn', 'reset_pf',
+EXPECTED_PROBES = ['cut_just_before_event', 'resume', 'snapshot', 'snapshot_keep', 'snapshot_file', 'crash_restore', 'torn', 'reset_pf',
                    'cut_at_event', 'cut_off_grid', 'exact_match', 'estimate_match', 'events_after_cut']
 RULE = ('plan = seeded (stock case, knobs, stock or seeded events, 1-3 interruption points after the first disturbance '
         'each with a kind from {resume, snapshot, snapshot_keep, snapshot_file, crash_restore, subprocess, torn, reset_pf}); '
@@ -61,6 +61,18 @@ def plans(seed, tier, count):
                         'knobs': {'TDS.tstep': 1 / 30}, 'channels': {}, 'disable_stock_events': True,
                         'events': [{'model': 'Toggle', 'params': {'model': 'Line', 'dev': ENUM_LINE[case], 't': 0.1, 'idx': 'E1'}}],
                         'tf': 0.6, 'cuts': [{'t': 0.1 + j / 30, 'how': 'snapshot' if j == 6 else 'resume', 'cls': 'grid'}]})
+    # interruptions a hair before an event (inside any 'close enough' tolerance, outside the exact instant): the event
+    # must neither be lost nor act early
+    for ci, case in enumerate(['kundur/kundur_full.xlsx', 'ieee14/ieee14_linetrip.xlsx', 'smib/SMIB.xlsx']):
+        for j, (delta, how) in enumerate([(1e-5, 'resume'), (1e-6, 'resume'), (1e-5, 'snapshot' if ci == 0 else 'resume')]):
+            if ci and j == 2:
+                continue
+            out.append({'property': PROP, 'seed': core.H('before14', ci, j), 'case': case, 'cls': 'enum',
+                        'knobs': {'TDS.tstep': 1 / 30}, 'channels': {}, 'disable_stock_events': True,
+                        'events': [{'model': 'Toggle', 'params': {'model': 'Line', 'dev': ENUM_LINE[case], 't': 0.3, 'idx': 'E1'}},
+                                   {'model': 'Toggle', 'params': {'model': 'Line', 'dev': ENUM_LINE[case], 't': 0.1, 'idx': 'E0'}},
+                                   {'model': 'Toggle', 'params': {'model': 'Line', 'dev': ENUM_LINE[case], 't': 0.2, 'idx': 'E2'}}],
+                        'tf': 0.6, 'cuts': [{'t': 0.3 - delta, 'how': how, 'cls': 'just_before_event'}]})
     i = 0
     while len(out) < count:
         out.append({'stub': True, 'seed': core.H(seed, PROP, i), 'tier': tier})
@@ -101,6 +113,8 @@ def elaborate(stub):
             t, cls = r.choice(later) + r.choice([-1e-4, 1e-4, -5e-5, 5e-5, -tstep / 2]), 'near_event'
         elif x < 0.7:
             t, cls = t1 + r.choice([1e-4, 5e-5, 2e-4]), 'just_after_first'
+        elif x < 0.78 and later:
+            t, cls = r.choice(later) - r.choice([1e-5, 5e-6, 1e-6]), 'just_before_event'
         else:
             t, cls = round(r.uniform(t1 + 0.01, tf - 0.01), r.choice([3, 6])), 'offgrid'
         if t1 < t < tf:
@@ -541,7 +555,8 @@ def execute(plan):
         ev_t = sorted({t for e in ref['events'] if e['u'] == 1 for t in e['timers'].values() if t > 0})
         first = ev_t[0] if ev_t else float('inf')
         probes['cut_at_event'] = sum(1 for c in plan['cuts'] if c['t'] in ev_t)
-        probes['cut_off_grid'] = sum(1 for c in plan['cuts'] if c.get('cls') in ('offgrid', 'near_event', 'just_after_first'))
+        probes['cut_just_before_event'] = sum(1 for c in plan['cuts'] if c.get('cls') == 'just_before_event')
+        probes['cut_off_grid'] = sum(1 for c in plan['cuts'] if c.get('cls') in ('offgrid', 'near_event', 'just_after_first', 'just_before_event'))
         probes['events_after_cut'] = sum(1 for t in ev_t if plan['cuts'] and t > plan['cuts'][0]['t'] and t <= plan['tf'])
         res['probes'] = probes
         res['faults'] = dict(sub['faults_fired'])
